@@ -42,6 +42,8 @@ type Case struct {
 	// Relay: every returned message is written with WriteNext(dst[:n]) before
 	// the look-ahead dst[n:] is used: writing must not touch it.
 	Relay bool `json:"relay,omitempty"`
+	// emptyReads marks a derived case (negative cuts = empty reads)
+	emptyReads bool
 }
 
 type viol struct{ key, what string }
@@ -380,6 +382,8 @@ type gen struct {
 	r     *mon.Run
 	rng   *rand.Rand
 	calls int64
+	// emptySeq counts cases; every 7th gets an empty-reads twin
+	emptySeq int64
 }
 
 func (g *gen) run(c *Case) {
@@ -399,6 +403,23 @@ func (g *gen) run(c *Case) {
 	for _, v := range vs {
 		g.r.Violate(v.key, v.what, c)
 	}
+	// the same schedule with empty reads ((0, nil): "nothing happened, call
+	// again") before / between / after its fragments
+	if !c.emptyReads && len(c.Cuts) > 0 && len(c.Cuts) <= 64 && g.emptySeq%7 == 0 {
+		d := *c
+		d.emptyReads = true
+		d.Class = c.Class + "+empty-reads"
+		d.Cuts = nil
+		for i, k := range c.Cuts {
+			for j := 0; j <= (i+int(g.emptySeq/7))%3; j++ {
+				d.Cuts = append(d.Cuts, -1)
+			}
+			d.Cuts = append(d.Cuts, k)
+		}
+		d.Cuts = append(d.Cuts, -1)
+		g.run(&d)
+	}
+	g.emptySeq++
 	if g.r.SampleN() < 6 && g.rng.Intn(2000) == 0 {
 		g.r.Sample(map[string]any{"codec": c.Codec, "stream_len": len(c.Stream), "msgs": len(c.Msgs), "cuts": c.Cuts, "carry": c.Carry, "limit": c.Limit, "eof_with_data": c.EOFWithData, "expect": c.Expect})
 	}
